@@ -418,6 +418,12 @@ func (w SocialWrappedCallbacks) deleteFn(c context.Context, a vocab.ActivityStre
 		} else if t == nil {
 			return ErrNotFound
 		}
+		if streams.IsOrExtendsActivityStreamsTombstone(t) {
+			// Already deleted (named twice in this activity, or by an
+			// earlier one): a Tombstone of the Tombstone would record
+			// 'Tombstone' as what the object formerly was.
+			return nil
+		}
 		tomb := toTombstone(t, loopId, w.clock.Now())
 		if err := w.db.Update(c, tomb); err != nil {
 			return err
